@@ -42,6 +42,22 @@ def random_text(rng, alphabet, maxlen=12):
                                    rng.randint(0x10000, 0x10ffff)])) for _ in range(rng.randint(1, 8)))
 
 
+LR_CERTS = ["cert lr-total", "cert terminating", "cert noshiftstop"]
+
+
+def nonempty_tokens(matrix):
+    """NonEmptyTokens for this input: no recognizer other than STOP reports a match of length 0"""
+    for e in matrix.split():
+        try:
+            t, rest = e.split("@")
+            _p, ln = rest.split("=")
+        except ValueError:
+            continue
+        if t != "0" and ln == "0":
+            return False
+    return True
+
+
 def oracle(c):
     bad = []
     for k, (inp, res) in enumerate(zip(c.inputs, c.results)):
@@ -54,13 +70,18 @@ def oracle(c):
 def known_class(c, k, why):
     if getattr(c, "empty_regex", False) and "timeout" in why:
         return "F14-empty-matching-terminal"
-    if "timeout" in why and c.text.startswith("S: A | Ta;\nA: S {15}"):
-        return "F24-cyclic-grammar-hang"
-    try:
-        if "timeout" in why and lf.parse_bnf(c.text).is_cyclic():
+    # F24: the hang is attributed to the class only where the Lean termination certificate FAILS on the table
+    # (for GLR cases, which carry no certificate answers, by the cyclicity of the grammar as before)
+    ex = getattr(c, "extra", None)
+    cert_fails = {"0": True, "1": False}.get(ex[1]) if ex and len(ex) >= 2 else None   # None: no answer
+    if "timeout" in why and cert_fails is not False:
+        if c.text.startswith("S: A | Ta;\nA: S {15}"):
             return "F24-cyclic-grammar-hang"
-    except Exception:
-        pass
+        try:
+            if lf.parse_bnf(c.text).is_cyclic():
+                return "F24-cyclic-grammar-hang"
+        except Exception:
+            pass
     return None
 
 
@@ -109,7 +130,7 @@ def run(rep, tier, seed):
     fixed = lf.replay_known(rep, "C15", oracle)
     lr = fixed + lr
     lf.add_histories(rng, lr)
-    lf.run_cases(lr, extra_requests=lambda c: ["cert lr-total"])
+    lf.run_cases(lr, extra_requests=lambda c: LR_CERTS)
     lf.add_histories(rng, glr)
     lf.run_cases(glr, model=False)
     # GLR on a long, highly ambiguous input is polynomially slow, not hanging: re-run every timeout outside the known
@@ -134,13 +155,54 @@ def check(rep, lr, glr, proofs_ok):
             rep.count("cert_lr_total_" + ("pass" if ex[0] == "1" else "FAIL"))
             if ex[0] != "1":
                 bad.append((None, "Cert.structural/Cert.total fail on the compiler's table: hypotheses of C15_lr_no_panic not met"))
+            bad += termination(c, ex)
+        return bad
+
+    def termination(c, ex):
+        """C15_lr_terminates: certificate Cert.terminating (+ Cert.lr, Cert.noShiftStop) on the table, NonEmptyTokens on the
+        input's recognizer matrix, default lexer  =>  neither the model nor the implementation may hang."""
+        bad = []
+        if len(ex) < 3 or ex[1] not in ("0", "1"):
+            rep.count("term_cert:unavailable")
+            return bad
+        cert = ex[0] == "1" and ex[1] == "1" and ex[2] == "1"
+        hung = 0
+        inside = 0
+        for k, ((algo, _p, _inp, _m), res) in enumerate(zip(c.inputs, c.results)):
+            is_hang = lf.klass(res) == "hang"
+            hung += is_hang
+            if "@" in algo:
+                continue            # user lexers: not covered by the theorem
+            mat = c.matrices[k] if k < len(c.matrices) else ""
+            if cert and nonempty_tokens(mat):
+                inside += 1
+                mres = c.model[k] if k < len(c.model) else ""
+                if is_hang or lf.klass(mres) == "hang":
+                    rep.count("term:HANG_INSIDE_THEOREM")
+                    bad.append((k, "hang although Cert.terminating holds and all tokens are non-empty: contradicts "
+                                   "C15_lr_terminates (" + ("implementation" if is_hang else "model") + ")"))
+            elif is_hang:
+                rep.count("term:hang_outside_theorem:" + ("cert_fails" if not cert else "empty_token"))
+        rep.count("term:inputs_inside_theorem", inside)
+        if cert:
+            rep.count("term_cert:pass")
+        elif hung:
+            rep.count("term_cert:fail_and_some_input_hangs")
+        else:
+            rep.count("term_cert:fail_but_no_input_hangs(outside the theorem, not a violation)")
+        if c.tag == "corpus:cyclic" or c.tag.startswith("finding:F24"):
+            rep.oblige("the F24 witness table fails Cert.terminating", ex[1] == "0", c.tag)
+        if c.tag in ("corpus:calc", "corpus:json", "corpus:ident", "corpus:layout"):
+            rep.oblige(f"Cert.terminating holds on the {c.tag} table", ex[1] == "1", c.tag)
         return bad
     lf.evaluate(rep, lr, orc, proofs_ok, PROP_MODULE, in_scope=scope, known_class=known_class)
     lf.evaluate(rep, glr, oracle, True, PROP_MODULE, compare_model=False, known_class=known_class)
     for c in lr:
         for (a, _, _, _) in c.inputs:
             rep.count("lexer:" + (a.split("@")[1].split(",")[0] if "@" in a else "default"))
-    rep.assumptions += ["GLR half and termination inside the GLR reducer: oracle on implementation output only"]
+    rep.assumptions += ["GLR half and termination inside the GLR reducer: oracle on implementation output only",
+                        "termination with user lexers (env.custom) and with terminals that match the empty string (F14): "
+                        "outside C15_lr_terminates, watchdog only"]
 
 
 def replay(rep, path):
@@ -150,5 +212,5 @@ def replay(rep, path):
     c = lf.Case(p["grammar"], p["settings"].split(" "), [(algo, p.get("partial", "0"), p.get("input", ""), {})], gram=None)
     glr = algo.startswith("GLR")
     lf.apply_replay_history(c, p)
-    lf.run_cases([c], model=not glr, extra_requests=None if glr else (lambda c: ["cert lr-total"]))
+    lf.run_cases([c], model=not glr, extra_requests=None if glr else (lambda c: LR_CERTS))
     check(rep, [] if glr else [c], [c] if glr else [], True)
